@@ -139,8 +139,29 @@ KIND_NAMES = tuple(FRAME_KINDS)
 DELIVERY = ("list", "generator", "callback")
 
 
-def make_tokenizer(validator, params):
+GEN_FLAG = [True]  # how `generator=True` is spelled by the caller: True, 1, numpy.True_ (set per case by run())
+
+
+DRESS = ("int", "np.int64", "np.int32", "np.int16", "np.uint8", "np.int8", "np.intp", "np.uint16", "IntEnum")
+
+
+def dress(value, how):
+    """the same whole number as another integer type a caller may legally hand over (what numpy computations and enums produce)"""
+    if how == "int" or isinstance(value, bool):
+        return value
+    if how == "IntEnum":
+        import enum
+
+        return enum.IntEnum("N", {"V": value}).V
+    ty = getattr(np, how.split(".")[1])
+    info = np.iinfo(ty)
+    return ty(value) if info.min <= value <= info.max else value
+
+
+def make_tokenizer(validator, params, how="int"):
     min_len, max_len, max_sil, init_min, ims, mode = params
+    if how != "int":
+        min_len, max_len, max_sil, init_min, ims = (dress(x, how) for x in (min_len, max_len, max_sil, init_min, ims))
     return StreamTokenizer(validator, min_len, max_len, max_sil, init_min=init_min, init_max_silence=ims, mode=mode)
 
 
@@ -160,7 +181,8 @@ def deliver(tokenizer, source, delivery, on_token=None, out=None):
             if on_token:
                 on_token(t, late=True)
     elif delivery == "generator":
-        for t in tokenizer.tokenize(source, generator=True):
+        flag = GEN_FLAG[0]
+        for t in tokenizer.tokenize(source, generator=flag):
             out.append(tuple(t))
             if on_token:
                 on_token(t, late=False)
@@ -178,7 +200,7 @@ def deliver(tokenizer, source, delivery, on_token=None, out=None):
 
 
 PRIOR_USES = ("complete-list", "complete-generator", "partial-suspended", "partial-closed", "never-started", "closed-during-second-use",
-              "target-generator-created-first", "source-raised")
+              "target-generator-created-first", "source-raised", "collected-mid-run")
 
 
 def parse_delivery(delivery):
@@ -187,7 +209,7 @@ def parse_delivery(delivery):
     mode, prior, use, j = parts[0], None, None, 0
     for p in parts[1:]:
         k, _, val = p.partition("=")
-        if k in ("fault", "vfault"):
+        if k in ("fault", "vfault", "dress", "gen"):
             continue
         if k == "prior":
             prior = tuple(1 if c == "A" else 0 for c in val)
@@ -248,6 +270,42 @@ def run(v, params, kind="tuple", delivery="list", on_token=None):
     `delivery` may carry an earlier use of the same tokenizer object (see parse_delivery)."""
     mode, prior, use, j = parse_delivery(delivery)
     frames, validator = FRAME_KINDS[kind](v)
+    opts = dict(p.partition("=")[::2] for p in delivery.split("|")[1:])
+    how = opts.get("dress", "int")
+    GEN_FLAG[0] = {"1": 1, "np": np.True_, "int8": np.int8(1)}.get(opts.get("gen"), True)
+    if use == "collected-mid-run" and prior is not None:
+        # the earlier generator of this tokenizer was advanced, then abandoned inside a reference cycle; the cyclic collector
+        # finalises it at an arbitrary moment - here: inside the source's read(), in the middle of the second run
+        import gc
+
+        tk = make_tokenizer(validator, params, how)
+        frames1, _ = FRAME_KINDS[kind](prior)
+        g = tk.tokenize(CountingSource(frames1), generator=True)
+        for _ in range(max(1, j)):
+            try:
+                next(g)
+            except StopIteration:
+                break
+        cell = {"g": g}
+        cell["self"] = cell
+        del g, cell
+        at = 1 + (j * 3 + len(frames) // 2) % (len(frames) + 1)
+
+        class CollectingSource(CountingSource):
+            def read(self):
+                if self.calls + 1 == at:
+                    gc.collect()
+                return CountingSource.read(self)
+
+        was = gc.isenabled()
+        gc.disable()
+        try:
+            src = CollectingSource(frames)
+            tokens = deliver(tk, src, mode, on_token)
+        finally:
+            if was:
+                gc.enable()
+        return frames, tokens, src
     vfault = [p.partition("=")[2] for p in delivery.split("|")[1:] if p.startswith("vfault=")]
     if vfault:
         # 'vfault=K:Name': the validator raises Name on its K-th call, once (a model that times out on one window).  Either
@@ -267,7 +325,7 @@ def run(v, params, kind="tuple", delivery="list", on_token=None):
             return inner(frame)
 
         src = CountingSource(frames)
-        tk = make_tokenizer(flaky, params)
+        tk = make_tokenizer(flaky, params, how)
         tokens = []
         try:
             deliver(tk, src, mode, on_token, out=tokens)
@@ -285,7 +343,7 @@ def run(v, params, kind="tuple", delivery="list", on_token=None):
         # or the tokenizer carries on (then the whole result is).
         k, _, name = fault[0].partition(":")
         src = CountingSource(frames, fault_at=int(k), fault_exc=FAULTS[name])
-        tk = make_tokenizer(validator, params)
+        tk = make_tokenizer(validator, params, how)
         tokens = []
         try:
             deliver(tk, src, mode, on_token, out=tokens)
@@ -296,7 +354,7 @@ def run(v, params, kind="tuple", delivery="list", on_token=None):
             src.fault_surfaced_as = type(exc).__name__
         return frames, tokens, src
     src = CountingSource(frames)
-    tk = make_tokenizer(validator, params)
+    tk = make_tokenizer(validator, params, how)
     if use == "target-generator-created-first" and prior is not None:
         # the generator for THIS stream is created first (not started), then the tokenizer does a complete run on another
         # stream, and only then is the generator consumed
